@@ -166,6 +166,9 @@ def sweep(tier, seed):
                 fails.append({'input': {'table_rows': size, 'highlights': list(map(bool, hl_pattern)), 'join': True}, 'observed': probs[:3], 'expected': 'joined tables stay aligned'})
         if len(fails) >= 10:
             break
+    n3, fails3 = metadata_cells_sweep()
+    n += n3
+    fails.extend(fails3)
     n2, fails2 = shapes_sweep(tier)
     n += n2
     fails.extend(fails2)
@@ -173,9 +176,60 @@ def sweep(tier, seed):
             'bound': 'every result kind with a built-in representation (equal, approx, student x2, bonferroni, holm over 4 (thorough: 6) failing-bin patterns + a one-sided NaN; '
                      'metadata; failed; task / test / by-label statistics) x {TableRepresenter, FullTableRepresenter} x 5 non-silent verbosities: mark <=> failure, docutils read-back '
                      'of every table, detailed rows; 2-column tables of 3-4 rows with every highlight pattern: 4 slices and one join; '
-                     '2 x 3 datasets (float, and integers beyond 10^6) in C and Fortran memory order, 4 failing-bin patterns: equal / approx-equal / Student detailed tables rendered, '
+                     'detailed metadata tables cell by cell (4 sample sets with names not in alphabetical order); 2 x 3 datasets (float, and integers beyond 10^6) in C and Fortran memory order, 4 failing-bin patterns: equal / approx-equal / Student detailed tables rendered, '
                      'copied, sliced, joined and joined-then-sliced (5 sequences): rows read back with the cells of one bin together and the highlight on the failing bins',
             'samples': [{'result': 'stats_tasks', 'pattern': 'FAILED/SKIPPED', 'representer': 'TableRepresenter', 'verbosity': 'DEFAULT'}]}
+
+
+def metadata_cells_sweep():
+    '''detailed metadata tables: the cell under the header of a sample holds THAT sample's value for the key of the row; a row carries a highlight iff the samples disagree,
+    and cells showing the same value are highlighted alike (sample names deliberately not in alphabetical order)'''
+    import itertools as it
+    from valjean.gavroche.diagnostics.metadata import TestMetadata
+    from valjean.javert.representation import TableRepresenter, FullTableRepresenter, Representation
+    from valjean.javert.verbosity import Verbosity
+    from valjean.javert.templates import TableTemplate
+    from valjean.javert.rst import RstTable
+    fails, n = [], 0
+    samples_sets = [
+        {'zeta': {'code': 'T4', 'v': 1, 'w': 3}, 'alpha': {'code': 'T4', 'v': 2, 'w': 3}},
+        {'zeta': {'code': 'T4', 'v': 1, 'w': 3}, 'alpha': {'code': 'T4', 'v': 2, 'w': 3}, 'mid': {'code': 'A3', 'v': 1}},
+        {'b': {'k': 'x'}, 'a': {'k': 'x'}, 'c': {'k': 'y'}},
+        {'m2': {'k': 1, 'l': 2}, 'm1': {'k': 1, 'l': 2}},
+    ]
+    for dmd in samples_sets:
+        res = TestMetadata(dmd, name='md').evaluate()
+        for rep in (TableRepresenter, FullTableRepresenter):
+            for v in (Verbosity.INTERMEDIATE, Verbosity.FULL_DETAILS, Verbosity.DEVELOPMENT):
+                n += 1
+                inp = {'metadata_samples': {k: dict(x) for k, x in dmd.items()}, 'representer': rep.__name__, 'verbosity': v.name}
+                ts = Representation(rep(), verbosity=v)(res)
+                for t in [t for t in (ts or []) if isinstance(t, TableTemplate)]:
+                    rows, msgs = parse_rst_table(str(RstTable(t)))
+                    if not rows:
+                        continue
+                    header = [c.strip() for c, _ in rows[0]] if rows else []
+                    if not set(dmd) <= set(header):
+                        continue          # not the per-sample table
+                    probs = []
+                    for r in rows[1:]:
+                        key = r[0][0].strip()
+                        cells = {h: r[j] for j, h in enumerate(header) if h in dmd}
+                        for sname, (txt, hl) in cells.items():
+                            want = str(dmd[sname].get(key, 'MISSING'))
+                            if txt.strip() != want:
+                                probs.append(f'row {key!r}: the cell under {sname!r} reads {txt.strip()!r}, that sample has {want!r}')
+                        vals = [c[0].strip() for c in cells.values()]
+                        any_hl = any(c[1] for c in cells.values())
+                        if any_hl != (len(set(vals)) > 1):
+                            probs.append(f'row {key!r}: highlight {any_hl} while the samples show {vals}')
+                        for a, b in it.combinations(cells.values(), 2):
+                            if a[0].strip() == b[0].strip() and a[1] != b[1]:
+                                probs.append(f'row {key!r}: two samples show {a[0].strip()!r}, only one of them is highlighted')
+                                break
+                    if probs:
+                        fails.append({'input': inp, 'observed': probs[:3], 'expected': 'every cell under its own sample, highlights on the samples that disagree'})
+    return n, fails
 
 
 def shapes_sweep(tier):
